@@ -124,9 +124,10 @@ theorem depsOf_some (db : Db) (hns : NoUnsetup db) (req : Required) :
   | zero => intro top depth st h; omega
   | succ k ih =>
     intro top depth st h
-    unfold depsOf
+    unfold depsOf depsOfG
     have := depsLoop_some db req (fun p d st' => depsOf db k req p true d st')
-      (fun p => (depsOf db k [] p true 0 St.empty).map fun r => r.1.map (·.prod.name)) top depth k
+      (fun p => if ([] : Guard).contains (prodkey p) then some []
+                else (depsOfG db k (prodkey p :: []) [] p true 0 St.empty).map fun r => r.1.map (·.prod.name)) top depth k
       (tableMissing_false hns)
       (by
         intro p dp st1 hlt
